@@ -3005,6 +3005,31 @@ func (c S3ApiController) DeleteObjects(ctx *fiber.Ctx) error {
 			})
 	}
 
+	// The access decision is taken per object: every key of the batch
+	// must be allowed on its own resource
+	for _, obj := range dObj.Objects {
+		err = auth.VerifyAccess(ctx.Context(), c.be,
+			auth.AccessOptions{
+				Readonly:      c.readonly,
+				Acl:           parsedAcl,
+				AclPermission: auth.PermissionWrite,
+				IsRoot:        isRoot,
+				Acc:           acct,
+				Bucket:        bucket,
+				Object:        getstring(obj.Key),
+				Action:        auth.DeleteObjectAction,
+			})
+		if err != nil {
+			return SendResponse(ctx, err,
+				&MetaOpts{
+					Logger:      c.logger,
+					MetricsMng:  c.mm,
+					Action:      metrics.ActionDeleteObjects,
+					BucketOwner: parsedAcl.Owner,
+				})
+		}
+	}
+
 	// The AWS CLI sends 'True', while Go SDK sends 'true'
 	bypass := strings.EqualFold(bypassHdr, "true")
 
